@@ -2,8 +2,9 @@
   C04 — model of pkg/ranges/ranges.go `Gaps` (lines 47-109), transliterated.
 
   Go:  sort by Start (slices.SortFunc, unstable; the model uses an insertion sort —
-       the result of Gaps does not depend on the order of equal starts, checked by
-       correspondence), then the i/j/madded merge loop, then the complement.
+       the result does not depend on the order of equal starts: `Props.C04.gaps_perm`,
+       and the harness shuffles its inputs), then the i/j/madded merge loop, then the
+       complement.
   Quirk kept: the merge condition is `m.Start <= r.Start && m.Stop()+1 >= r.Start`,
   i.e. a range that starts ONE BIT AFTER the current hull is merged into it and the
   bit in between is lost (the known one-bit-hole defect, DESIGN §1.8 #2).
